@@ -1,6 +1,10 @@
 package c09
 
-import "testing"
+import (
+	"testing"
+
+	"verifharness/internal/evid"
+)
 
 // Native coverage-guided fuzzing of the LCS kernel against the reference DP
 // (thorough tier only; the driver runs it with -test.fuzz for a bounded time).
@@ -21,10 +25,10 @@ func FuzzLCS(f *testing.F) {
 		}
 		c := lcsCase{clean(a), clean(b), ((bound%12)+12)%12 - 1}
 		if err := checkLCS(c); err != nil {
-			t.Fatalf("VERIF-FAIL check=lcs: %v", err)
+			evid.Fail(t, "lcs", c, err)
 		}
 		if err := checkD1(d1Case{c.A, c.B}); err != nil {
-			t.Fatalf("VERIF-FAIL check=d1or0: %v", err)
+			evid.Fail(t, "d1or0", d1Case{c.A, c.B}, err)
 		}
 	})
 }
